@@ -723,10 +723,15 @@ func genPW(c *Ctx) {
 		case 2:
 			v = r.Uniform(-1e3, 1e3)
 		}
-		style := r.Intn(4)
+		style := r.Intn(5)
+		if style == 4 {
+			v = r.Uniform(-1e-6, 1e-6) // a table in very small units: neighbouring knots closer than 1e-9
+		}
 		for j := range xs {
 			xs[j] = v
 			switch style {
+			case 4:
+				v += r.LogUniform(1e-13, 1e-8)
 			case 0:
 				v += float64(r.Range(1, 10))
 			case 1:
